@@ -85,3 +85,164 @@ Proof.
   destruct (envelope_singletons U W HE _ _ E) as [x ->].
   destruct Hi as [<-|[]]. destruct Hj as [<-|[]]. exact H3.
 Qed.
+
+(* ---- requests are satisfied in the sense of the Spec ------------------------------------ *)
+(* the name map is sound: a package listed under n is named n or provides n *)
+Definition provides_name (k : cpkg) (n : string) : Prop := exists pv, In pv (k_provs k) /\ s_name pv = n.
+Definition nm_sound (ks : list cpkg) (m : name_map) : Prop :=
+  Forall (fun e => Forall (fun j => exists k, nth_error ks j = Some k /\ (k_name k = fst e \/ provides_name k (fst e))) (snd e)) m.
+
+Lemma nm_add_sound ks n j m k : nth_error ks j = Some k -> (k_name k = n \/ provides_name k n) ->
+  nm_sound ks m -> nm_sound ks (nm_add n j m).
+Proof.
+  intros Hj Hk. induction m as [|[k0 l] m IH]; simpl; intros H.
+  - constructor; [|constructor]. simpl. constructor; [|constructor]. exists k. auto.
+  - inversion H as [|? ? H1 H2]; subst. destruct (String.eqb k0 n) eqn:E.
+    + apply String.eqb_eq in E. subst k0. constructor; [|exact H2]. simpl in *. apply Forall_app. split; [exact H1|].
+      constructor; [|constructor]. exists k. auto.
+    + constructor; [exact H1|]. apply IH. exact H2.
+Qed.
+
+Lemma build_names_sound ks : nm_sound ks (build_names ks).
+Proof.
+  unfold build_names, add_provides. apply fold_left_inv.
+  - unfold own_names. apply fold_left_inv; [constructor|]. intros m [i k] Hin Hm. simpl.
+    pose proof (number_from_nth _ _ _ _ Hin) as Hn. rewrite Nat.sub_0_r in Hn.
+    eapply nm_add_sound; [exact Hn | left; reflexivity | exact Hm].
+  - intros m key _ Hm. destruct (alookup key (own_names ks)); [|exact Hm].
+    apply fold_left_inv; [exact Hm|]. intros m' i _ Hm'. destruct (nth_error ks i) as [k|] eqn:E; [|exact Hm'].
+    assert (G : forall provs, (forall pv, In pv provs -> In pv (k_provs k)) ->
+                nm_sound ks (fold_left (fun m pv => nm_add (s_name pv) i m) provs m')).
+    { intros provs. revert m' Hm'. induction provs as [|pv t IH]; intros m0 Hm0 Hsub; [exact Hm0|]. simpl. apply IH.
+      - eapply nm_add_sound; [exact E | right; exists pv; split; [apply Hsub; left; reflexivity | reflexivity] | exact Hm0].
+      - intros pv' Hpv'. apply Hsub. right. exact Hpv'. }
+    apply G. auto.
+Qed.
+
+Lemma names_sound U n l j : alookup n (r_names (new_resolver U)) = Some l -> In j l ->
+  k_name (getp (new_resolver U) j) = n \/ provides_name (getp (new_resolver U) j) n.
+Proof.
+  intros E Hj. unfold new_resolver in E; cbn [r_names] in E. apply alookup_In in E.
+  pose proof (build_names_sound (List.map cook_pkg U)) as S. unfold nm_sound in S. rewrite Forall_forall in S.
+  specialize (S _ E). simpl in S. rewrite Forall_forall in S. destruct (S j Hj) as [k [Hn Hk]].
+  unfold getp, new_resolver; cbn [r_pkgs]. rewrite (nth_error_nth _ _ _ Hn). exact Hk.
+Qed.
+
+(* constrain disqualifies every provider that fails a versioned positive entry *)
+Lemma fold_dq_add_covers (f : pid -> bool) providers : forall dq j, In j providers -> f j = true ->
+  In j (fold_left (fun dq j => if f j then dq_add j dq else dq) providers dq).
+Proof.
+  induction providers as [|p t IH]; intros dq j Hin Hf; [contradiction|]. simpl. destruct Hin as [->|Hin].
+  - rewrite Hf. apply (fold_dq_add_incl (fun dq j => if f j then dq_add j dq else dq)).
+    + intros d b. destruct (f b); [apply dq_add_incl | apply incl_refl].
+    + unfold dq_add. destruct (mem_pid j dq) eqn:E; [apply mem_pid_In; exact E | left; reflexivity].
+  - apply IH; assumption.
+Qed.
+
+Lemma constrain_covers R : forall cs dq0 dq1, constrain R cs dq0 = Ok dq1 ->
+  forall d providers req j, In d cs -> d_neg d = None -> (s_dep (d_pos d) =? dep_versionAny)%Z = false ->
+  alookup (s_name (d_pos d)) (r_names R) = Some providers -> s_req (d_pos d) = Some req ->
+  In j providers -> constrain_provider (d_pos d) req (getp R j) = true -> In j dq1.
+Proof.
+  induction cs as [|c cs IH]; intros dq0 dq1 H d providers req j Hd Hneg Hdep Hl Hreq Hj Hc; [contradiction|].
+  unfold constrain in H. simpl in H. fold (constrain R cs) in H.
+  (* the first step *)
+  match type of H with fold_left ?F cs ?first = _ => set (F0 := F) in *; set (fst0 := first) in * end.
+  assert (M : exists dqa, fst0 = Ok dqa /\ incl dqa dq1 /\ constrain R cs dqa = Ok dq1).
+  { destruct fst0 as [dqa| | |] eqn:E0.
+    - exists dqa. split; [reflexivity|]. split; [eapply constrain_mono; exact H | exact H].
+    - exfalso. clear -H. induction cs as [|x xs IHx]; simpl in H; [discriminate | apply IHx; exact H].
+    - exfalso. clear -H. induction cs as [|x xs IHx]; simpl in H; [discriminate | apply IHx; exact H].
+    - exfalso. clear -H. induction cs as [|x xs IHx]; simpl in H; [discriminate | apply IHx; exact H]. }
+  destruct M as [dqa [E0 [I1 HC]]]. destruct Hd as [->|Hd].
+  - subst fst0. simpl in E0. rewrite Hneg, Hdep, Hl, Hreq in E0. inversion E0; subst dqa. apply I1.
+    apply (fold_dq_add_covers (fun j => constrain_provider (d_pos d) req (getp R j))); assumption.
+  - eapply IH; eassumption.
+Qed.
+
+Lemma resolve_ok_c R world dq0 scheds S : wf2 R -> resolve_with R world dq0 scheds = Ok S ->
+  exists dq1, constrain R (List.map cook_dep world) dq0 = Ok dq1 /\
+  forall w, In w world -> exists dq i, incl dq1 dq /\ In i (candidates R dq (cook_str w)) /\
+                                       exists j, In j S /\ nm R j = nm R i.
+Proof.
+  intros Hwf H. unfold resolve_with in H.
+  destruct (constrain R (List.map cook_dep world) dq0) as [dq1| | |] eqn:EC; cbn [rbind] in H; try discriminate.
+  exists dq1. split; [reflexivity|].
+  destruct (phase1 _ R _ dq1 []) as [[dq2 depmap]| | |] eqn:E1; cbn [rbind] in H; try discriminate.
+  apply phase1_mono in E1.
+  eapply (phase2_inv R dq1 Hwf) in H.
+  - destruct H as [_ [_ [_ H4]]]. intros w Hw. destruct (H4 (d_pos (cook_dep w))) as [dq [i [A [B C]]]].
+    { rewrite map_map. apply in_map_iff. exists w. split; [reflexivity | exact Hw]. }
+    exists dq, i. split; [exact A|]. split; [exact B|]. apply in_map_iff in C. destruct C as [j [E Hj]].
+    exists j. split; [exact Hj | exact E].
+  - exact E1.
+  - simpl. split; [constructor|]. split; [intros n; split; intros []|constructor].
+Qed.
+
+Lemma envelope_world U W : envelope_b U W = true -> forall w, In w W ->
+  d_neg (cook_dep w) = None /\ versioned_on_real_b (new_resolver U) (cook_str w) = true.
+Proof.
+  unfold envelope_b, envelope_c. intros H w Hw. apply andb_true_iff in H. destruct H as [_ H].
+  rewrite forallb_forall in H. specialize (H (cook_dep w) (in_map _ _ _ Hw)).
+  destruct (d_neg (cook_dep w)); [discriminate|]. split; [reflexivity | exact H].
+Qed.
+
+Lemma closed_partial_requests U W dq0 scheds S :
+  envelope_b U W = true -> resolve U W dq0 scheds = Ok S ->
+  forall w, In w W -> satisfies_dep (pkgs_of U S) w.
+Proof.
+  intros HE H w Hw. set (R := new_resolver U) in *.
+  destruct (resolve_ok_c R W dq0 scheds S (new_resolver_wf2 U) H) as [dq1 [HC HR]].
+  destruct (HR w Hw) as [dq [i [H1 [H2 [j [H3 H4]]]]]].
+  (* unique names: the chosen candidate is the member *)
+  assert (Vi : i < List.length U).
+  { destruct (candidates_spec _ _ _ _ (new_resolver_wf U) H2) as [V _].
+    unfold valid, R, new_resolver in V; cbn [r_pkgs] in V. rewrite map_length in V. exact V. }
+  assert (Vj : j < List.length U) by (eapply members_lemma; eassumption).
+  destruct (own_listed U i Vi) as [l [E Hi]]. destruct (own_listed U j Vj) as [l' [E' Hj]].
+  fold R in E, E'. rewrite H4 in E'. rewrite E in E'. inversion E'; subst l'.
+  destruct (envelope_singletons U W HE _ _ E) as [x ->].
+  destruct Hi as [<-|[]]. destruct Hj as [<-|[]]. clear E E' H4.
+  exists (nth x U dummy_pkg). split; [unfold pkgs_of; apply in_map_iff; exists x; split; [reflexivity | exact H3]|].
+  (* the candidate satisfies the request *)
+  apply pkg_satisfies_b_spec. rewrite <- getp_new_resolver. fold R.
+  destruct (envelope_world U W HE w Hw) as [Hneg Hreal]. fold R in Hreal.
+  unfold candidates in H2. destruct (alookup (s_name (cook_str w)) (r_names R)) as [cands|] eqn:EL; [|contradiction].
+  unfold filter_packages in H2. cbn [world_opts fo_dep fo_req] in H2.
+  unfold pkg_satisfies_b. destruct (s_dep (cook_str w) =? dep_versionAny)%Z eqn:ED.
+  - (* no operator: named or providing *)
+    apply filter_In in H2. destruct H2 as [Hin _].
+    destruct (names_sound U _ _ _ EL Hin) as [Hn|[pv [Hpv Hn]]]; fold R in Hn.
+    + apply orb_true_iff. left. apply andb_true_iff. split; [apply String.eqb_eq; exact Hn|].
+      unfold ver_ok_b. rewrite ED. reflexivity.
+    + apply orb_true_iff. right. apply existsb_exists. exists pv. split; [exact Hpv|].
+      unfold provide_ok_b. apply andb_true_iff. split; [apply String.eqb_eq; exact Hn|]. unfold ver_ok_b. rewrite ED. reflexivity.
+  - (* an operator: the name is a package name; constrain has removed it unless its own version passes *)
+    destruct (s_req (cook_str w)) as [req|] eqn:EQ; [|contradiction].
+    apply filter_In in H2. destruct H2 as [Hb Hv]. apply filter_In in Hb. destruct Hb as [Hin Hb].
+    apply andb_true_iff in Hb. destruct Hb as [Hndq _]. apply negb_true_iff in Hndq. apply mem_pid_false in Hndq.
+    unfold versioned_on_real_b in Hreal. rewrite ED, EL in Hreal. cbn [orb] in Hreal.
+    destruct cands as [|i' [|? ?]]; try discriminate. destruct Hin as [<-|[]]. apply String.eqb_eq in Hreal.
+    apply orb_true_iff. left. apply andb_true_iff. split; [apply String.eqb_eq; exact Hreal|].
+    unfold ver_ok_b. rewrite ED, EQ. cbn [orb].
+    unfold version_passes in Hv. destruct (k_ver (getp R i')) as [a|] eqn:EV; [|discriminate].
+    destruct (satisfies (s_dep (cook_str w)) a req) eqn:ES; [reflexivity|]. exfalso. apply Hndq. apply H1.
+    eapply (constrain_covers R _ _ _ HC (cook_dep w) [i'] req i').
+    + apply in_map. exact Hw.
+    + exact Hneg.
+    + exact ED.
+    + exact EL.
+    + exact EQ.
+    + left. reflexivity.
+    + unfold constrain_provider. cbn [cook_dep d_pos]. rewrite Hreal, String.eqb_refl, EV, ES. reflexivity.
+Qed.
+
+Lemma closed_partial_lemma2 U W dq0 scheds S :
+  envelope_b U W = true -> resolve U W dq0 scheds = Ok S ->
+  NoDup (List.map p_name (pkgs_of U S)) /\ incl (pkgs_of U S) U /\
+  (forall w, In w W -> satisfies_dep (pkgs_of U S) w) /\
+  (forall w, In w W -> exists dq i, incl dq0 dq /\ In i (candidates (new_resolver U) dq (cook_str w)) /\ In i S).
+Proof.
+  intros HE H. destruct (closed_partial_lemma U W dq0 scheds S HE H) as [A [B C]].
+  split; [exact A|]. split; [exact B|]. split; [|exact C]. eapply closed_partial_requests; eassumption.
+Qed.
